@@ -370,6 +370,13 @@ func checkC20(c c20Case, r *vcore.Rec) *vcore.Failure {
 			return f
 		}
 	}
+	// (2b) the pool's own edit operations keep it an accepted pool: taking one address out and putting it back (in every range, at
+	// its first, a middle and its last address) gives the same ranges again, and what is in between still round-trips
+	for i, p := range c.Pools {
+		if f := checkPoolEdits(pools[i], p, r); f != nil {
+			return f
+		}
+	}
 	// (3) the same texts through galaxy-ipam's configmap path: a text that decodes but is refused (a null entry in front of the
 	// pools) is rejected on EVERY poll and changes nothing; the accepted text is applied afterwards
 	if !poolsOverlap(c.Pools) && len(c.Pools) > 0 && (len(c.Probe) == 0 || c.Probe[0]%4 == 0) {
@@ -406,6 +413,48 @@ func checkC20(c c20Case, r *vcore.Rec) *vcore.Failure {
 			}
 		}
 	}
+	return nil
+}
+
+func rangesText(p *floatingip.FloatingIPPool) string {
+	var out []string
+	for _, rg := range p.IPRanges {
+		out = append(out, rg.String())
+	}
+	return strings.Join(out, ",")
+}
+
+func checkPoolEdits(pool *floatingip.FloatingIPPool, spec poolSpec, r *vcore.Rec) *vcore.Failure {
+	if len(spec.Ranges) == 0 || len(spec.Ranges) > 6 {
+		return nil
+	}
+	orig := rangesText(pool)
+	for ri, rg := range spec.Ranges {
+		for _, x := range []uint32{rg[0], rg[0] + (rg[1]-rg[0])/2, rg[1]} {
+			ip := nets.IntToIP(x)
+			if !pool.RemoveIP(ip) {
+				return vcore.Failf("c20:edit_remove", "RemoveIP(%s) refused an address of range %d of the accepted pool %s", ip, ri, orig)
+			}
+			if pool.Contains(ip) {
+				return vcore.Failf("c20:edit_remove", "after RemoveIP(%s) the pool still contains it (ranges %s)", ip, rangesText(pool))
+			}
+			data, err := json.Marshal(pool)
+			var back floatingip.FloatingIPPool
+			if err == nil && len(pool.IPRanges) > 0 {
+				if uerr := json.Unmarshal(data, &back); uerr != nil {
+					return vcore.Failf("c20:edit_roundtrip", "the pool after RemoveIP(%s) encodes to %s which is rejected: %v", ip, data, uerr)
+				}
+			}
+			if !pool.InsertIP(ip) {
+				return vcore.Failf("c20:edit_insert", "InsertIP(%s) refused an address that was just removed (ranges %s)", ip, rangesText(pool))
+			}
+			if got := rangesText(pool); got != orig {
+				return vcore.Failf("c20:edit_not_restored", "RemoveIP(%s) then InsertIP(%s): ranges are %s, the accepted pool had %s (sorted, disjoint, not mergeable)",
+					ip, ip, got, orig)
+			}
+		}
+	}
+	r.Class("pool_edited_and_restored")
 	return nil
 }
 
